@@ -718,6 +718,12 @@ func (s *UDPSession) postProcess() {
 			if s.fecEncoder != nil {
 				if !oob {
 					ecc = s.fecEncoder.encode(buf, maxFECEncodeLatency)
+					// parity is as long as the longest data packet of its group: if the MTU
+					// was lowered in the middle of the group, drop the parity of that group
+					// (same as a skipped parity) instead of exceeding the new MTU.
+					if len(ecc) > 0 && !s.fitsMtu(len(ecc[0])) {
+						ecc = nil
+					}
 				} else {
 					s.fecEncoder.encodeOOB(buf)
 				}
@@ -818,6 +824,14 @@ func (s *UDPSession) postProcess() {
 			return
 		}
 	}
+}
+
+// fitsMtu reports whether a packet of n bytes (headers included, before
+// AEAD sealing) respects the currently configured MTU.
+func (s *UDPSession) fitsMtu(n int) bool {
+	s.mu.Lock()
+	defer s.mu.Unlock()
+	return n <= int(s.kcp.mtu)+s.headerSize
 }
 
 // sess update to trigger protocol
